@@ -920,3 +920,56 @@ func sliceOfNamed(pkgSuffix, name string) func(types.Type) bool {
 		return ok && el(s.Elem())
 	}
 }
+
+// streamDecodedToEOF: f decodes a stream of documents (a loop around Decoder.Decode); it may report success only after
+// the decoder answered io.EOF - every return of a nil error is reached only through an edge on which the decode error
+// was found equal to io.EOF (err == io.EOF, errors.Is(err, io.EOF)). A loop that stops for another reason (e.g.
+// `for dec.More()`, which is also false in front of a stray `}` or `]`) lets trailing garbage pass as success.
+func streamDecodedToEOF(c *eng.Ctx, r *eng.RuleCtx, key string) {
+	p := c.P
+	f := r.NeedFunc(key)
+	if f == nil {
+		return
+	}
+	info := f.Pkg.TypesInfo
+	g := p.GraphOf(f)
+	eof := p.ExtObject("io", "EOF")
+	nDecode := 0
+	for _, n := range g.Nodes {
+		nDecode += len(g.CallsAt(n, func(o types.Object, _ *ast.CallExpr) bool { return o != nil && o.Name() == "Decode" }))
+	}
+	if nDecode == 0 || eof == nil {
+		r.Unknown(f.Key+" decodes-to-EOF", f.Decl.Pos(), "no Decode call found")
+		return
+	}
+	isEOF := func(fc eng.Fact) bool {
+		if !fc.Pos && fc.Y == nil {
+			// !(err != io.EOF)
+			if b, isB := ast.Unparen(fc.X).(*ast.BinaryExpr); isB && b.Op == token.NEQ && (eng.SelObj(info, b.X) == eof || eng.SelObj(info, b.Y) == eof) {
+				return true
+			}
+			return false
+		}
+		if x, y, eq, isEq := eng.EqAtom(fc); isEq && eq && (eng.SelObj(info, x) == eof || eng.SelObj(info, y) == eof) {
+			return true
+		}
+		if cl, isC := ast.Unparen(fc.X).(*ast.CallExpr); isC && fc.Pos && fc.Y == nil && len(cl.Args) == 2 && eng.IsPkgFunc(eng.CalleeOf(info, cl), "errors", "Is") && eng.SelObj(info, cl.Args[1]) == eof {
+			return true
+		}
+		return false
+	}
+	ok := true
+	nret := 0
+	var pos token.Pos = f.Decl.Pos()
+	for _, site := range resultSites(g, info, f.Decl.Body) {
+		if len(site.Vals) == 0 || !eng.IsNil(info, site.Vals[len(site.Vals)-1]) {
+			continue
+		}
+		nret++
+		if !g.OnlyVia(site.Node, nil, g.FactEdge(isEOF)) {
+			ok = false
+			pos = site.Node.Node.Pos()
+		}
+	}
+	r.Check(ok && nret > 0, f.Key+" decodes-to-EOF", pos, "success is returned only after the decoder reported io.EOF", "the stream decoder can report success without having reached the end of the input (the loop stops for another reason than io.EOF): a malformed tail - a stray `}` or `]` after a complete document - is silently ignored and the documents before it are applied")
+}
